@@ -9,6 +9,8 @@
 (*  "bounds"  all pairs of boundary-class operands (BigInt) x scales        *)
 (*  "floats"  every exponent field of f32 / f64 x fraction class x sign     *)
 (*  "round"   every shift 1..38 x head class x remainder class x sign x scale *)
+(*  "operands" every boundary-class operand x every scale 0..18 (unary operations) *)
+(*  "ints"    d * 10^k for every d <= NMax, k <= 37, written with f <= min(k, 18) digits *)
 EXTENDS BigInt, TLC, Json
 CONSTANTS Kind, NMax, DMax, LMax, ScaleSet
 
@@ -24,6 +26,9 @@ Classes ==
    BMul(BLit(5), BPow10(17)), BMul(BLit(5), BPow10(37))}
   \cup {BPow10(k) : k \in Tens} \cup {BSub(BPow10(k), BLit(1)) : k \in Tens} \cup {BAdd(BPow10(k), BLit(1)) : k \in Tens \ {38}}
   \cup {BFloorDivMod(MAXC, BPow10(k))[1] : k \in {1, 9, 17, 18}} \cup {BAdd(BFloorDivMod(MAXC, BPow10(k))[1], BLit(1)) : k \in {1, 9, 17, 18}}
+  \* word-size boundaries of 64-bit fast paths and values that alias a special value in their low 64 bits
+  \cup {BAdd(BPow2(63), BLit(d)) : d \in {-1, 1}} \cup {BAdd(BPow2(64), BLit(1)), BAdd(BPow2(64), BPow10(1)), BAdd(BPow2(64), BPow10(18)),
+        BMul(BLit(3), BPow2(65)), BMul(BLit(5), BPow2(70)), BPow2(96), BMul(BLit(95), BPow10(17)), BMul(BLit(923), BPow10(16))}
 Signed == Classes \cup {BNeg(c) : c \in Classes}
 
 VARIABLES a, b, out
@@ -36,6 +41,8 @@ Init ==
        [] Kind = "bounds" -> a \in {[c |-> c, f |-> f] : c \in Signed, f \in ScaleSet} /\ b = 0
        [] Kind = "floats" -> a \in 0..2047 /\ b = 0
        [] Kind = "round" -> a \in 1..38 /\ b = 0
+       [] Kind = "operands" -> a \in Signed /\ b = 0
+       [] Kind = "ints" -> a \in 1..NMax /\ b = 0
 Next ==
   CASE Kind = "kernel" -> out = "-" /\ \E d \in 1..DMax : out' = ToJson(<<a, d>>) /\ UNCHANGED <<a, b>>
     [] Kind = "small" -> out = "-" /\ \E yc \in YSmall, s \in {-1, 1}, yf \in 0..1, n \in 0..2 :
@@ -47,6 +54,8 @@ Next ==
                            (w = 64 \/ a <= 255) /\ out' = ToJson(<<w, sg, a, fc>>) /\ UNCHANGED <<a, b>>
     [] Kind = "round" -> out = "-" /\ \E hc \in 0..3, rc \in 0..5, sg \in {-1, 1}, f \in ScaleSet :
                            out' = ToJson(<<a, hc, rc, sg, f>>) /\ UNCHANGED <<a, b>>
+    [] Kind = "operands" -> out = "-" /\ \E f \in 0..18 : out' = ToJson([s |-> a.s, m |-> a.m, f |-> f]) /\ UNCHANGED <<a, b>>
+    [] Kind = "ints" -> out = "-" /\ \E k \in 0..37, f \in 0..18, sg \in {-1, 1} : f <= k /\ out' = ToJson(<<a, k, f, sg>>) /\ UNCHANGED <<a, b>>
 Spec == Init /\ [][Next]_vars
 Emit == out = "-" \/ PrintT("VEC " \o out)
 =======================================================================
